@@ -104,6 +104,7 @@ def run(ctx):
         ctx.anchor_missing(r_valid, str(e))
 
     exist_rule(ctx, Syn_(ctx))
+    split_rule(ctx, Syn_(ctx))
     recur_rule(ctx, prog, reach, Syn_(ctx))
 
     # ---------------- loops consume input
@@ -242,3 +243,73 @@ def recur_rule(ctx, prog, reach, syn):
         if not okc and "build:include-guard" not in r.seen:
             ctx.anchor_missing(r, "recursive builder.build(..) call in TextResourceBuilder::build")
     ctx.floor(r, n, 1, "self-recursive loader-reachable functions")
+
+
+# ---------------------------------------------------------------------- SPLIT
+def split_rule(ctx, syn):
+    """the reviewed table lines for `<list>.last().unwrap()` / `<list>[0]` in the CSV row reader rest on one
+    fact: each list is the collect() of a str::split(..), which yields at least one item.  That fact is
+    checked here for every such list, on every path of its initialisation."""
+    from synq import find, unparse, strip, walk, pat_names, block_tail
+    r = ctx.rule("C19.SPLIT", "every list the CSV row reader takes `.last().unwrap()` of is, on every path, the collect() of a str::split (never empty)")
+    fl = [f for f in syn.fns if f.name == "try_into" and f.file == "src/csv.rs" and f.body is not None and "AnnotationCsv" in (f.self_ty or "")]
+    if len(fl) != 1:
+        ctx.anchor_missing(r, "AnnotationCsv::try_into")
+        return
+    f = fl[0]
+    ctx.functions_analysed.add(f.qual)
+    names = set()
+    for c in find(f.body, "mcall"):
+        if c["method"] == "unwrap" and strip(c["recv"]).get("k") == "mcall" and strip(c["recv"])["method"] in ("last", "first"):
+            base = strip(strip(c["recv"])["recv"])
+            if base.get("k") == "path" and len(base["path"]) == 1:
+                names.add(base["path"][0])
+    lets = {}
+    for nd in walk(f.body):
+        if nd.get("k") == "let" and nd.get("init") is not None:
+            for nm in pat_names(nd["pat"]):
+                lets.setdefault(nm, []).append(nd["init"])
+
+    def tails(e, out):
+        e = strip(e)
+        k = e.get("k")
+        if k == "if":
+            t = block_tail(e["then"])
+            if t is not None:
+                tails(t, out)
+            if e.get("else") is not None:
+                tails(e["else"], out)
+            else:
+                out.append(None)
+        elif k == "blockexpr":
+            t = block_tail(e["block"])
+            tails(t, out) if t is not None else out.append(None)
+        elif k == "match":
+            for a in e["arms"]:
+                tails(a["body"], out)
+        else:
+            out.append(e)
+    for nm in sorted(names):
+        for init in lets.get(nm, []):
+            ts = []
+            tails(init, ts)
+            for t in ts:
+                src = unparse(t) if t is not None else "(no value)"
+                chain = []
+                cur = t
+                while cur is not None and cur.get("k") == "mcall":
+                    chain.append(cur["method"])
+                    cur = strip(cur["recv"])
+                okc = bool(chain) and chain[0] == "collect" and "split" in chain and not any(m in ("filter", "filter_map", "skip", "take", "skip_while", "take_while", "split_terminator", "split_whitespace") for m in chain)
+                if not okc and t is not None and re.fullmatch(r"(SmallVec|Vec)::new\(\)", src):
+                    # filled by an unconditional push in a loop over a str::split (at least one iteration)
+                    for lp in find(f.body, "for"):
+                        if ".split(" in unparse(lp["iter"]) and not re.search(r"\.(filter|skip|take)\(", unparse(lp["iter"])):
+                            direct = [st_ for st_ in lp["body"]["stmts"] if st_.get("k") == "exprstmt" and strip(st_["e"]).get("k") == "mcall" and strip(st_["e"])["method"] == "push" and unparse(strip(strip(st_["e"])["recv"])) == nm]
+                            if direct:
+                                okc = True
+                                src += " + push in a loop over " + unparse(lp["iter"])[:40]
+                r.hit("%s|%s" % (nm, re.sub(r"\W+", "_", src)[:40]), sample={"list": nm, "initialised_by": src[:70], "non_empty": okc})
+                if not okc:
+                    ctx.report(r, "%s|possibly-empty" % nm, "the CSV row reader takes `%s.last().unwrap()` (as the eagerly evaluated fallback of `.get(i).unwrap_or(..)`), but on one path `%s` is initialised by `%s`, which can be empty: a row with that column absent panics" % (nm, nm, src[:60]), f.file, (t or init).get("l"))
+    ctx.floor(r, len(names), 6, "lists whose last element is unwrapped")
